@@ -508,8 +508,17 @@ def accessor(repo):
                 if start < i < mt.start() and cond:
                     enclosing.append(cond[0])
     conds = " && ".join(enclosing)
-    for needle, what in (("has_$name", "existence of the field"), (".Known()", "known offset/size"), (">= 0", "non-negative offset/size")):
-        if needle not in conds:
+    needles = [("has_$name", "existence of the field")]
+    am = re.search(r"GetOffsetStorage<[^>]*>\(\s*(\w+)\.ValueOrDefault\(\)\s*,\s*(\w+)\.ValueOrDefault\(\)", text, re.S)
+    if am:
+        for var, role in ((am.group(1), "offset"), (am.group(2), "size")):
+            needles.append((f"{var}.Known()", f"a known {role}"))
+            needles.append((f"{var}.ValueOr(0) >= 0", f"a non-negative {role}"))
+    else:
+        needles += [(".Known()", "known offset/size"), (">= 0", "non-negative offset/size")]
+    cflat = " ".join(conds.split())
+    for needle, what in needles:
+        if needle not in cflat:
             res.add(f"{name}|guard|{needle}", f"GetOffsetStorage in the field accessor is not guarded by {what} "
                     f"(enclosing conditions: {conds[:120]!r})", TEMPLATES, tp[name]["line"])
     m = re.search(r"GetOffsetStorage<[^>]*>\(\s*([^,]+),\s*([^)]+)\)", text, re.S)
